@@ -542,6 +542,25 @@ def _num(rng, lo, hi):
     return s
 
 
+def _respell(rng, a):
+    """another legal spelling of the same number (string edits only, so the value denoted is unchanged)"""
+    neg = a.startswith('-')
+    body = a[1:] if neg else a
+    if 'e' in body or 'E' in body:
+        return a
+    opts = []
+    if body.startswith('0.') and len(body) > 2:
+        opts += [body[1:]] * 3                                  # .5
+    if body.endswith('.0'):
+        opts += [body[:-1], body[:-2]]                          # 5.   5
+    if '.' not in body:
+        opts += [body + '.', body + 'e0', body + 'E+0']
+    else:
+        opts += [body + 'e0', body + 'e-0']
+    b = rng.choice(opts)
+    return ('-' + b) if neg else rng.choice([b, b, '+' + b])
+
+
 def _transform(rng, lexical=False):
     n = rng.choice([1, 1, 2, 3])
     items = []
@@ -577,6 +596,13 @@ def _transform(rng, lexical=False):
         else:
             args, name = [_num(rng, -60, 60)], 'skewY'
         if lexical:
+            # number spellings of the SVG grammar: no leading zero (.5, -.5), trailing dot (5.), explicit sign, exponent
+            for ai in range(len(args)):
+                if name in ('translate', 'skewX', 'skewY', 'rotate') or (name == 'matrix' and ai >= 4):
+                    if rng.random() < 0.3:
+                        args[ai] = repr(rng.randint(-15, 15) / 16.0)
+                if rng.random() < 0.5:
+                    args[ai] = _respell(rng, args[ai])
             sep = rng.choice([',', ' ', ', ', '\t', '\n ', ''])
             out = args[0]
             for a in args[1:]:
